@@ -6,7 +6,7 @@ use self::attributes::{ContainerAttributes, FieldAttributes, VariantAttributes};
 use crate::util::{inner_Option, extract_doc_comment, extract_doc_attrs};
 use proc_macro2::{TokenStream, Span};
 use quote::quote;
-use syn::{Item, ItemFn, ItemStruct, ItemEnum, Fields, FieldsNamed, FieldsUnnamed, Variant, Visibility, Ident, LitInt, LitStr, Type, Path, token, Token, punctuated::Punctuated};
+use syn::{Item, ItemFn, ItemStruct, ItemEnum, Fields, FieldsNamed, FieldsUnnamed, Variant, Visibility, Ident, LitInt, LitStr, Type, Path, token, Token, punctuated::Punctuated, ext::IdentExt};
 
 pub(super) fn derive_schema(input: TokenStream) -> syn::Result<TokenStream> {
     return match syn::parse2::<Item>(input)? {
@@ -139,7 +139,7 @@ pub(super) fn derive_schema(input: TokenStream) -> syn::Result<TokenStream> {
                         continue
                     }
 
-                    let mut ident = f.ident.clone().unwrap(/* Named */);
+                    let mut ident = f.ident.as_ref().unwrap(/* Named */).unraw(/* `r#type` is `type` for serde */);
                     if let Some((span, case)) = container_attrs.serde.rename_all.value()? {
                         ident = Ident::new(&case.apply_to_field(&ident.to_string()), span);
                     }
@@ -372,7 +372,7 @@ pub(super) fn derive_schema(input: TokenStream) -> syn::Result<TokenStream> {
                 ) {
                     for f in named {
                         f.ident = Some(Ident::new(
-                            &case.apply_to_field(&f.ident.as_ref().unwrap(/* Named */).to_string()),
+                            &case.apply_to_field(&f.ident.as_ref().unwrap(/* Named */).unraw().to_string()),
                             span
                         ));
                     }
